@@ -2,6 +2,9 @@ import XzVerif.Proofs.Segment
 import XzVerif.Proofs.Tables
 import XzVerif.Proofs.XzRoundTrip
 import XzVerif.Proofs.Select
+import XzVerif.Proofs.XzW
+import XzVerif.Proofs.HashTable
+import XzVerif.Proofs.BinTree
 /-
   C01 — xz write→read round trip is lossless for every input and configuration.
 
@@ -36,10 +39,22 @@ import XzVerif.Proofs.Select
   * The LZMA2 writer inside each block: Props/C08 (no call fails; output decodes to the input for every call
     history and every applicable match finder, also stateful ones: `MatcherInv`).
 
-  Not proved (hence `_partial` in the claim): the xz.Writer assembly around the blocks (header, block header,
-  padding, check, index, footer) is tied (byte-identical re-encoding, strict reference decoder, block sizes
-  predicted), not proved; the BinaryTree search structure is not modelled (its proposals are covered by the
-  theorem above for any candidate list); model = Go is the correspondence.
+  * **`C01_xz_writer_roundtrip` — the property itself for the model of the whole xz writer** (`Model/XzW.lean`:
+    distribution of the Write calls over blocks, one LZMA2 writer machine per block with a fresh match finder,
+    block header with the dictionary size code of `EncodeDictCap`, padding, check of any type, index, footer): for
+    every configuration `WriterConfig.Verify` accepts, every self-synchronising match finder, every list of Write
+    calls (any partition, empty writes included), the emitted stream is read back by the reader model — under the
+    format's strict rules and under the Go reader's rules, with any reader dictionary capacity up to the declared
+    one — to exactly the bytes written, with a clean end.  `C01_xz_writer_roundtrip_hashtable4` and `_bintree`
+    instantiate it with the complete models of the two match finders: **no hypothesis about the match finder is
+    left**.  `C01_block_distribution`: every block but the last receives exactly `BlockSize` bytes.
+    The model is tied to the real `xz.Writer` on every run: the stream it computes from the Write calls alone
+    is byte-identical to the real output (700+ cases quick: both match finders, all check types, block sizes,
+    partitions).  Size hypotheses: fewer than 2^40 bytes and 2^28 blocks.
+
+  What remains outside the theorems (hence `partial`): model = Go is the correspondence (computed stream, replayed
+  proposals, candidate lists, ring scripts, tables); calls after Close and failing sinks are decided by the oracles
+  (C09); Go `int` arithmetic is unbounded in the model.
 -/
 namespace Props.C01
 open Lzma Rc
@@ -115,6 +130,46 @@ theorem C01_applicable_is_goOpOk (a : Ring.Abs) (c : W2.Cfg) (hist look : ByteAr
     (hh : hist.data.toList = a.W.take a.r) (hl : look.data.toList = a.W.drop a.r) (hr : a.r ≤ a.W.length)
     (hok : Sel.OpOkAbs a c.dictCap s.r0 g) : W2.GoOpOk c hist look s g :=
   Sel.opOkAbs_goOpOk a c hist look s g hh hl hr hok
+
+/-- the whole xz writer model: what is written is what is read back -/
+theorem C01_xz_writer_roundtrip {σ : Type} (strict : Bool) (c : XzW.Cfg) (hc : XzW.CfgOk c) (M : W2.Matcher σ)
+    (I : σ → ByteArray → ByteArray → Prop) (hI : W2.MatcherInv c.w2 M I) (m0 : σ) (h0 : I m0 ByteArray.empty ByteArray.empty)
+    (writes : List ByteArray) (hsize : (XzW.written writes).size < 2 ^ 40)
+    (hblocks : (XzW.split c.blockSize writes).length < 2 ^ 28)
+    (cfgCap : Nat) (hcap : strict = false → cfgCap ≤ Xz.dictSize (Model.encodeDictCap c.w2.dictCap)) :
+    (Xz.read strict cfgCap false (XzW.run c M m0 writes)).status = .eof ∧
+    (Xz.read strict cfgCap false (XzW.run c M m0 writes)).out = XzW.written writes :=
+  XzW.xz_writer_roundtrip strict c hc M I hI m0 h0 writes hsize hblocks cfgCap hcap
+
+theorem C01_xz_writer_roundtrip_hashtable4 (strict : Bool) (c : XzW.Cfg) (hc : XzW.CfgOk c)
+    (writes : List ByteArray) (hsize : (XzW.written writes).size < 2 ^ 40)
+    (hblocks : (XzW.split c.blockSize writes).length < 2 ^ 28)
+    (cfgCap : Nat) (hcap : strict = false → cfgCap ≤ Xz.dictSize (Model.encodeDictCap c.w2.dictCap)) :
+    let out := XzW.run c HT.HT4 (HT.St.new c.w2.dictCap c.w2.bufSize) writes
+    (Xz.read strict cfgCap false out).status = .eof ∧ (Xz.read strict cfgCap false out).out = XzW.written writes :=
+  XzW.xz_writer_roundtrip strict c hc HT.HT4 (HT.Synced c.w2) (HT.ht4_matcherInv c.w2) _ (HT.synced_new c.w2)
+    writes hsize hblocks cfgCap hcap
+
+theorem C01_xz_writer_roundtrip_bintree (strict : Bool) (c : XzW.Cfg) (hc : XzW.CfgOk c)
+    (writes : List ByteArray) (hsize : (XzW.written writes).size < 2 ^ 40)
+    (hblocks : (XzW.split c.blockSize writes).length < 2 ^ 28)
+    (cfgCap : Nat) (hcap : strict = false → cfgCap ≤ Xz.dictSize (Model.encodeDictCap c.w2.dictCap)) :
+    let out := XzW.run c BT.BT4 (BT.St.new c.w2.dictCap c.w2.bufSize) writes
+    (Xz.read strict cfgCap false out).status = .eof ∧ (Xz.read strict cfgCap false out).out = XzW.written writes :=
+  XzW.xz_writer_roundtrip strict c hc BT.BT4 (BT.Synced c.w2) (BT.bt4_matcherInv c.w2) _ (BT.synced_new c.w2)
+    writes hsize hblocks cfgCap hcap
+
+/-- block distribution: the pieces are exactly the bytes written; every block but the last gets `bs` bytes -/
+theorem C01_block_distribution (bs : Nat) (hbs : 1 ≤ bs) (writes : List ByteArray) :
+    XzW.written ((XzW.split bs writes).flatten) = XzW.written writes ∧
+    (∀ b ∈ (XzW.split bs writes).dropLast, (XzW.written b).size = bs) ∧
+    (∀ b, (XzW.split bs writes).getLast? = some b → (XzW.written b).size ≤ bs) ∧
+    XzW.split bs writes ≠ [] :=
+  XzW.split_spec bs hbs writes
+
+/-- the hypotheses are satisfiable: the default configuration (8 MiB dictionary, CRC64, no block size) -/
+example : XzW.CfgOk { w2 := { props := ⟨3, 0, 2⟩, dictCap := 8388608, bufSize := 4096 }, blockSize := 2 ^ 63 - 1, flags := 4 } := by
+  unfold XzW.CfgOk W2.CfgOk Lzma2.PropsOk; decide
 
 /-- the fresh probability table satisfies the hypothesis of the round-trip theorem -/
 theorem C01_init_table_ok (lc lp : Nat) : (initTable lc lp).ok := by
